@@ -56,9 +56,33 @@ MaskUnitFree ==
     \A k \in Kernels, u \in Units :
         (Def(k, InUnit(CurWin, u)) = ENull) <=> (Def(k, CurWin) = ENull)
 
+\* ---- translation of the origin --------------------------------------------------------------
+\* Besides the unit, the ORIGIN of the scale is arbitrary for statistics defined by order and
+\* differences: adding b to every element adds b to the extrema and changes neither their
+\* positions, nor the ranks, nor the min-max normalisation.  (The moment statistics are
+\* translation-invariant in exact arithmetic too - TransLaw below checks all of them - but kernels
+\* that accumulate f64 power sums cannot honour it for an origin near 2^60; only the kernels C03
+\* calls EXACT are replayed at a far origin: TransReplay.)
+Trans(k) == CASE k \in {"min", "max", "mean", "wma", "ewm", "reg", "tsf", "intercept"} -> "plus"
+              [] k \in {"argmin", "argmax", "rank", "rank_rev", "rank_pct", "rank_rev_pct", "minmaxnorm", "zscore",
+                        "var", "std", "skew", "kurt", "slope", "mse"} -> "same"
+              [] OTHER -> "no"                       \* sum (n*b), fractional differences
+TransReplay(k) == k \in {"min", "max", "argmin", "argmax", "rank", "rank_rev", "rank_pct", "rank_rev_pct", "minmaxnorm"}
+Shifted(s, b) == [i \in 1..Len(s) |-> IF s[i] = NULL THEN NULL ELSE s[i] + b]
+PlusE(e, b) == LET n == NormE(e) IN
+               CASE n[1] = 1 -> EQ(QAdd(<<n[2], n[3]>>, <<b, 1>>))
+                 [] OTHER    -> n
+TransLaw ==
+    xs # <<>> =>
+    \A k \in Kernels, b \in {0 - 3, 5} :
+        \/ Trans(k) = "no"
+        \/ Trans(k) = "same" /\ SameExp(NormE(Def(k, Shifted(CurWin, b))), NormE(Def(k, CurWin)))
+        \/ Trans(k) = "plus" /\ SameExp(NormE(Def(k, Shifted(CurWin, b))), PlusE(Def(k, CurWin), b))
+
 EmitLaws ==
     (xs = <<>> /\ w = 1 /\ mp = 0) =>
         PrintT(<<"REPLAY", ToJson([op |-> "laws1",
                                    deg |-> [k \in Kernels |-> Deg(k)],
-                                   safe |-> [k \in Kernels |-> UnitSafe(k)]])>>)
+                                   safe |-> [k \in Kernels |-> UnitSafe(k)],
+                                   trans |-> [k \in Kernels |-> IF TransReplay(k) THEN Trans(k) ELSE "no"]])>>)
 =============================================================================
